@@ -146,10 +146,10 @@ def generate(ctx):
         if r == 0: sp = [[1013.25, 500.0], [1050.0, 777.5]]
         a = None
         if h == 'synthetic':
-            m = 9
-            aa = np.concatenate([np.sort(rng.integers(1, 200, size=m // 2 + 1)).astype(np.float64), np.zeros(m - m // 2)])
-            aa[0] = 0.0; aa[m // 2 + 1:] = np.linspace(aa[m // 2], 0, m - m // 2 + 1)[1:]
-            bb = np.concatenate([np.zeros(m // 2), np.linspace(0, 1, m + 1 - m // 2)])
+            m = 9; k = 4                                   # 10 bounds: pure pressure above, hybrid below
+            up = np.concatenate([[0.0], np.cumsum(rng.integers(1, 40, size=k)).astype(np.float64)])   # strictly increasing, top = 0
+            aa = np.concatenate([up, np.linspace(up[-1], 0.0, m + 1 - k)[1:]])
+            bb = np.concatenate([np.zeros(k + 1), np.linspace(0.0, 1.0, m + 1 - k)[1:]])
             a = {'a': aa.tolist(), 'b': bb.tolist()}
         ctx.count('hybrid:' + h)
         yield 'hybrid', {'hyb': h, 'ab': a, 'sigma': sig, 'sp': sp, 'fseed': int(rng.integers(0, 2 ** 31))}
